@@ -413,6 +413,9 @@ func DeserializeNode(data []byte) (Node, error) {
 	if pNode.Branch != nil {
 		branchNode := routingNode{}
 		branchNode.hash = pNode.Branch.Hash
+		if len(pNode.Branch.Children) > len(branchNode.Children) {
+			return nil, errors.New("invalid branch node")
+		}
 		for i, child := range pNode.Branch.Children {
 			if len(child) >= hashWithWeightLength {
 				childHash := child[:32]
